@@ -37,6 +37,7 @@ class DumpRecords:
         "gather_record_areas": External(returns=Const([]), raises=CONVERSION_ERRORS),
         "ModuleResultsOrOther.to_json": External(returns=Const({}), raises=CONVERSION_ERRORS),
         "dumps": External(returns=Str, raises=["TypeError"]),
+        "dump": External(raises=["TypeError"], effect="write"),
         "IO.write": External(effect="write"),
     }
 
@@ -74,6 +75,7 @@ class WriteToFile:
     stubs = {
         "AntismashResults.to_json": External(returns=Const({}), raises=CONVERSION_ERRORS),
         "dumps": External(returns=Str, raises=["TypeError"]),
+        "dump": External(raises=["TypeError"], effect="write"),
         "IO.write": External(effect="write"),
     }
 
